@@ -237,6 +237,15 @@ def run(P, R, L):
     K.grd20_create_only_when_missing(P, R, L)
     R.clause("GRD-21", "a failed manifest write removes only a manifest created by that very call, never the live one CURRENT names")
     K.grd21_manifest_cleanup(P, R, L)
+    from . import blind
+    R.clause("VERD-2", "KeyNotFound is never the answer to a failed open / read in the lookup chain")
+    K.verd2_not_found_only_for_a_miss(P, R, L)
+    R.clause("OWN-15", "KeyNotFound is built only where a source was actually searched (never in the table cache)")
+    blind.own15_who_may_say_not_found(P, R, L)
+    R.clause("ERR-5", "every From<io::Error> files the error under the IO variant, whatever its kind")
+    R.once(blind.err5_io_errors_keep_their_class, P, R, L)
+    R.clause("TS-3", "a table builder whose finalize failed is not abandoned (the assertion in abandon would replace the reported error by a dead compaction thread)")
+    R.once(blind.ts3_no_abandon_after_finalize, P, R, L)
     R.clause("VERD-1", "a table read error ends Version::get with that error (it is reported, not replaced by an older value)")
     K.verd1(P, R, L, what=("version",))
     R.clause("ERR-4", "an error that cut next/prev short is parked and handed on through status() by every wrapping iterator, and MergingIterator::get_error includes it")
